@@ -68,8 +68,8 @@ Definition mk_word (n : Z) : rat := (n, 1).                                 (* R
 (* Rational(const Integer& n, const Integer& d, int red); None = GivMathDivZero thrown *)
 Definition mk_nd (n d : Z) (redarg : Z) : option rat :=
   if isZeroI d then None else
-  let s := if isZeroI n then (0, 1) else (0, 0) in        (* num = zero; den = one; -- then falls through *)
-  let s := if signI d >? 0 then (n, d) else (- n, - d) in
+  let s := if isZeroI n then (0, 1)
+           else if signI d >? 0 then (n, d) else (- n, - d) in
   Some (if redarg =? 1 then reduce s else s).
 
 (* Rational(uint64_t n, uint64_t d) (and the uint32_t pair, which forwards) *)
@@ -78,10 +78,16 @@ Definition mk_u64 (n d : Z) : option rat :=
   let s := if n =? 0 then (0, 1) else (n, d) in
   Some (reduce s).
 
-(* Rational(int64_t n, int64_t d) (and the int32_t pair, which forwards); -n, -d are int64_t negations *)
+(* Rational(int64_t n, int64_t d) (and the int32_t pair, which forwards).
+   REPAIRED behaviour (frag/C10.fix-6.diff): for d <= 0 the negations are done on Integer (-Integer(n), -Integer(d));
+   the code as it is negates in int64_t, which overflows for INT64_MIN (mk_i64_asis). *)
 Definition mk_i64 (n d : Z) : option rat :=
   if d =? 0 then None else
-  let s := if n =? 0 then (0, 1) else (0, 0) in          (* no else: falls through *)
+  let s := if n =? 0 then (0, 1) else (0, 0) in          (* no else: falls through, overwritten below *)
+  let s := if d >? 0 then (n, d) else (- n, - d) in
+  Some (reduce s).
+Definition mk_i64_asis (n d : Z) : option rat :=
+  if d =? 0 then None else
   let s := if d >? 0 then (n, d) else (wrap_s64 (- n), wrap_s64 (- d)) in
   Some (reduce s).
 
@@ -107,8 +113,8 @@ Definition rcompare (a b : rat) : Z :=
 (* givrational.inl: the six operators, as written *)
 Definition op_ne (a b : rat) : bool := negb (rcompare a b =? 0).
 Definition op_eq (a b : rat) : bool := rcompare a b =? 0.
-Definition op_lt (a b : rat) : bool := rcompare a b =? -1.
-Definition op_gt (a b : rat) : bool := rcompare a b =? 1.
+Definition op_lt (a b : rat) : bool := rcompare a b <? 0.
+Definition op_gt (a b : rat) : bool := rcompare a b >? 0.
 Definition op_le (a b : rat) : bool := rcompare a b <=? 0.
 Definition op_ge (a b : rat) : bool := rcompare a b >=? 0.
 
@@ -142,61 +148,72 @@ Definition rsub (red : bool) (t r : rat) : rat :=
 Definition rneg (t : rat) : rat := nd0 (- num t) (den t).
 Definition rpos (t : rat) : rat := t.
 
-(* in-place forms: s is the current state of *this; rn/rd read the argument *)
+(* in-place forms.  s is the current state of *this, r the argument.
+   operator+= / -= (after 36986de): `if (&r == this) return *this += Rational(r);` - an aliased argument is
+   copied first, so the body always reads an object distinct from *this. *)
+Definition set_num (s : rat) (v : Z) : rat := (v, den s).
+Definition set_den (s : rat) (v : Z) : rat := (num s, v).
+
+Definition addin_body (red : bool) (r s : rat) : rat :=
+  if isZero r then s else
+  if isZero s then (let s := set_num s (num r) in set_den s (den r)) else
+  if isInteger s && isInteger r then set_num s (num s + num r) else
+  if negb red then
+    let s := set_num s (num s * den r) in
+    let s := set_num s (num s + num r * den s) in
+    set_den s (den s * den r)
+  else
+  let d1 := gcdI (den s) (den r) in
+  if d1 =? 1 then
+    let s := set_num s (num s * den r) in
+    let s := set_num s (num s + num r * den s) in
+    set_den s (den s * den r)
+  else
+  let s := set_num s (num s * divI (den r) d1) in
+  let s := set_num s (num s + num r * divI (den s) d1) in
+  let d2 := gcdI (num s) d1 in
+  let s := set_num s (divI (num s) d2) in
+  let s := set_den s (divI (den s) d1) in
+  let s := set_den s (den s * den r) in
+  set_den s (divI (den s) d2).
+
+Definition subin_body (red : bool) (r s : rat) : rat :=
+  if isZero r then s else
+  if isZero s then (let s := set_num s (- num r) in set_den s (den r)) else
+  if isInteger s && isInteger r then set_num s (num s - num r) else
+  if negb red then
+    let s := set_num s (num s * den r) in
+    let s := set_num s (num s - num r * den s) in
+    set_den s (den s * den r)
+  else
+  let d1 := gcdI (den s) (den r) in
+  if d1 =? 1 then
+    let s := set_num s (num s * den r) in
+    let s := set_num s (num s - num r * den s) in
+    set_den s (den s * den r)
+  else
+  let s := set_num s (num s * divI (den r) d1) in
+  let s := set_num s (num s - num r * divI (den s) d1) in
+  let d2 := gcdI (num s) d1 in
+  let s := set_num s (divI (num s) d2) in
+  let s := set_den s (divI (den s) d1) in
+  let s := set_den s (den s * den r) in
+  set_den s (divI (den s) d2).
+
+(* alias = (&r == this) *)
+Definition addin (alias : bool) (r : rat) (red : bool) (s : rat) : rat :=
+  if alias then addin_body red s s (* Rational(r) is a copy of *this *) else addin_body red r s.
+Definition subin (alias : bool) (r : rat) (red : bool) (s : rat) : rat :=
+  if alias then subin_body red s s else subin_body red r s.
+
+(* operator*= / operator/= have no aliasing guard: with alias = true the reads of r.num / r.den see the
+   members of *this as they are at that point of the body. *)
 Section InPlace.
   Variable alias : bool.
   Variable r : rat.
   Definition rn (s : rat) : Z := if alias then num s else num r.
   Definition rd (s : rat) : Z := if alias then den s else den r.
   Definition rarg (s : rat) : rat := (rn s, rd s).
-  Definition set_num (s : rat) (v : Z) : rat := (v, den s).
-  Definition set_den (s : rat) (v : Z) : rat := (num s, v).
-
-  Definition addin (red : bool) (s : rat) : rat :=
-    if isZero (rarg s) then s else
-    if isZero s then (let s := set_num s (rn s) in set_den s (rd s)) else
-    if isInteger s && isInteger (rarg s) then set_num s (num s + rn s) else
-    if negb red then
-      let s := set_num s (num s * rd s) in
-      let s := set_num s (num s + rn s * den s) in
-      set_den s (den s * rd s)
-    else
-    let d1 := gcdI (den s) (rd s) in
-    if d1 =? 1 then
-      let s := set_num s (num s * rd s) in
-      let s := set_num s (num s + rn s * den s) in
-      set_den s (den s * rd s)
-    else
-    let s := set_num s (num s * divI (rd s) d1) in
-    let s := set_num s (num s + rn s * divI (den s) d1) in
-    let d2 := gcdI (num s) d1 in
-    let s := set_num s (divI (num s) d2) in
-    let s := set_den s (divI (den s) d1) in
-    let s := set_den s (den s * rd s) in
-    set_den s (divI (den s) d2).
-
-  Definition subin (red : bool) (s : rat) : rat :=
-    if isZero (rarg s) then s else
-    if isZero s then (let s := set_num s (- rn s) in set_den s (rd s)) else
-    if isInteger s && isInteger (rarg s) then set_num s (num s - rn s) else
-    if negb red then
-      let s := set_num s (num s * rd s) in
-      let s := set_num s (num s - rn s * den s) in
-      set_den s (den s * rd s)
-    else
-    let d1 := gcdI (den s) (rd s) in
-    if d1 =? 1 then
-      let s := set_num s (num s * rd s) in
-      let s := set_num s (num s - rn s * den s) in
-      set_den s (den s * rd s)
-    else
-    let s := set_num s (num s * divI (rd s) d1) in
-    let s := set_num s (num s - rn s * divI (den s) d1) in
-    let d2 := gcdI (num s) d1 in
-    let s := set_num s (divI (num s) d2) in
-    let s := set_den s (divI (den s) d1) in
-    let s := set_den s (den s * rd s) in
-    set_den s (divI (den s) d2).
 
   Definition mulin (red : bool) (s : rat) : rat :=
     if isZero (rarg s) then mk_word 0 else
@@ -310,8 +327,8 @@ Definition of_double (red : bool) (sgnbit : bool) (e m : Z) : option rat :=
   let xlt0 := sgnbit && negb ((e =? 0) && (m =? 0)) in
   let s :=
     if e =? 0 then
-      (* num = (x<0. ? -t.u.mantissa : t.u.mantissa): the negation is done in uint64_t *)
-      let s := ((if xlt0 then wrap_u64 (- m) else m), 1) in
+      (* Integer tt(mantissa); num = (x<0. ? -tt : tt)   (after fb374ec: negation on Integer) *)
+      let s := ((if xlt0 then - m else m), 1) in
       divin false (mk_int (Z.shiftl 1 1074)) red s
     else
       let shift := 1075 - e in
@@ -341,15 +358,15 @@ Definition q_axmyin (red : bool) (r a b : rat) : rat := rsub red (rmul red a b) 
 Definition q_maxpyin (red : bool) (r a b : rat) : rat := subin false (rmul red a b) red r.
 Definition q_neg (a : rat) : rat := (- num a, den a).
 Definition q_negin (r : rat) : rat := (- num r, den r).
-(* inv(r, a); alias = (&r == &a): r.num = a.den; r.den = a.num; *)
-Definition q_inv (alias : bool) (a : rat) : rat :=
-  let snum := signI (num a) in
-  let s := (den a, 0) in
-  let s := (num s, if alias then num s else num a) in
-  if snum <? 0 then (- num s, - den s) else s.
 Definition q_invin (r : rat) : rat :=
   let snum := signI (num r) in
   let s := (den r, num r) in
+  if snum <? 0 then (- num s, - den s) else s.
+(* inv(r, a); alias = (&r == &a): forwards to invin (after 4bcc635) *)
+Definition q_inv (alias : bool) (a : rat) : rat :=
+  if alias then q_invin a else
+  let snum := signI (num a) in
+  let s := (den a, num a) in
   if snum <? 0 then (- num s, - den s) else s.
 Definition q_isOne (a : rat) : bool := rcompare a (1, 1) =? 0.
 Definition q_isMOne (a : rat) : bool := rcompare a (-1, 1) =? 0.
